@@ -114,7 +114,10 @@ def norm_pattern(pattern: AnyStr, normalize: bool | None, is_raw_chars: bool) ->
         elif is_raw_chars and m.group(4):
             char = bytes([int(m.group(4), 8) & 0xFF]) if is_bytes else chr(int(m.group(4), 8))
         elif is_raw_chars and m.group(3):
-            char = bytes([int(m.group(3)[2:], 16)]) if is_bytes else chr(int(m.group(3)[2:], 16))
+            value = int(m.group(3)[2:], 16)
+            if not is_bytes and value > sys.maxunicode:
+                raise SyntaxError(f"Could not convert character value {m.group(3)!r} at position {m.start(3):d}")
+            char = bytes([value]) if is_bytes else chr(value)
         elif is_raw_chars and not is_bytes and m.group(5):
             char = unicodedata.lookup(m.group(5)[3:-1])
         elif not is_raw_chars or m.group(5 if is_bytes else 6):
